@@ -1779,6 +1779,30 @@ func (b *Block) checkConsistency() error {
 	return nil
 }
 
+// CheckPackedValues returns an error if a packed voxel value of some sub-block is not an
+// index into that sub-block's labels.  Unlike the checks made by UnmarshalBinary, this visits
+// every voxel of the sub-blocks whose number of labels is not a power of two, so it is meant
+// for blocks received from clients and not for every block read back from storage.
+func (b *Block) CheckPackedValues() error {
+	const subBlockNumVoxels = SubBlockSize * SubBlockSize * SubBlockSize
+	var bitpos uint32
+	for i, num := range b.NumSBLabels {
+		if num < 2 {
+			continue
+		}
+		bits := bitsFor(num)
+		if num&(num-1) != 0 { // else every value of that many bits is a valid index
+			for v := uint32(0); v < subBlockNumVoxels; v++ {
+				if val := getPackedValue(b.SBValues, bitpos+v*bits, bits); val >= num {
+					return fmt.Errorf("voxel %d of sub-block %d has packed value %d, outside the sub-block's %d labels", v, i, val, num)
+				}
+			}
+		}
+		bitpos += subBlockNumVoxels * bits
+	}
+	return nil
+}
+
 // StringDump returns a string that lists pretty-printed data from the block.
 func (b Block) StringDump(verbose bool) string {
 	uint64array, size := b.MakeLabelVolume()
